@@ -1156,6 +1156,10 @@ class DiameterHeader(object):
         """Load a byte stream which represents Diameter Headers and returns a 
         list of DiameterHeader objects.
         """
+        if len(stream) < DIAMETER_HEADER_LENGTH:
+            raise DiameterHeaderError("invalid bytes stream. It is shorter "\
+                                      "than the Diameter Header")
+
         version  = convert_to_1_byte(stream[0])
         length = stream[1:4]        
         flags = convert_to_1_byte(stream[4])
@@ -1435,6 +1439,11 @@ class DiameterMessage:
         while index < len(stream):
             header_stream = stream[index:index+DIAMETER_HEADER_LENGTH]
             header = DiameterHeader.load(header_stream)
+
+            if header.get_length() < DIAMETER_HEADER_LENGTH:
+                raise DiameterHeaderError("invalid bytes stream. The Message "\
+                                          "Length field is shorter than the "\
+                                          "Diameter Header")
 
             lower_limit = index + DIAMETER_HEADER_LENGTH
             upper_limit = index + header.get_length()
